@@ -58,9 +58,18 @@ def impl_init():
         except DatabaseError as e:
             return {"dberr": {"err": type(e).__name__, "line": getattr(e, "line_number", None)}}
         raw = bytes.fromhex(c["payload"])
-        buf = bytearray(raw)
+        style = len(raw) + len(c["lines"])
+        if style % 4 == 0:
+            buf = raw                                   # bytes
+        elif style % 4 == 1:
+            from h11._receivebuffer import ReceiveBuffer
+            buf = ReceiveBuffer()
+            buf += raw
+        else:
+            buf = bytearray(raw)
         try:
-            r = fingerprint_http(buf, options=Options(database=db))
+            with U.options_as(style // 4, database=db) as kw:
+                r = fingerprint_http(buf, **kw)
         except PacketError:
             return {"err": "PacketError"}
         except DatabaseError:
